@@ -294,15 +294,21 @@ Proof. vm_compute. reflexivity. Qed.
 Example nop0_marshal : marshal_iter pj_nop0 (iter0 pj_nop0) = Err.
 Proof. vm_compute. reflexivity. Qed.
 
-(* 5b. An array-start word pointing backwards as an object member: Object.Map
-   gets an empty array, NextElementBytes sets o.off = 2 again, for ever.
-   (Arbitrary tape; Go: Iter.Interface() never returns.)  The plain walk uses
-   Iter.Type(), which answers TypeNone for such an element, and stops. *)
+(* 5b. An array-start word pointing backwards as an object member.  Before fix
+   F19 Object.Map got an empty array, NextElementBytes set o.off = 2 again, and
+   Iter.Interface() never returned (the model: OutOfFuel) — which is why
+   interface_doc_fine carries the hypothesis that member arrays point forward
+   (Deserialize establishes it).  The same step backwards through a ROOT tag in
+   the member's value slot, which Deserialize does not exclude, made
+   Object.Parse loop on a deserialized blob (F19).  NextElementBytes now refuses
+   every member whose open tag points backwards, so the example is an error;
+   the hypothesis of interface_doc_fine is kept (the theorem is weaker than it
+   could now be, not wrong). *)
 Definition pj_backarr : pjson :=
   {| pj_tape := [mk_word TagRoot 7; mk_word TagObjectStart 6; mk_word TagString 0; 0%N;
                  mk_word TagArrayStart 2; mk_word TagObjectEnd 1; mk_word TagRoot 0];
      pj_strings := []; pj_msg := [] |}.
-Example backarr_interface : interface_doc pj_backarr = OutOfFuel.
+Example backarr_interface : interface_doc pj_backarr = Err.
 Proof. vm_compute. reflexivity. Qed.
 Example backarr_walk : walk_doc pj_backarr = Err.
 Proof. vm_compute. reflexivity. Qed.
